@@ -49,6 +49,10 @@ use std::{
 /// Logging target for the file.
 const LOG_TARGET: &str = "litep2p::substream";
 
+#[cfg(litep2p_verif)]
+#[path = "../verif/c04.rs"]
+pub(crate) mod verif_c04;
+
 macro_rules! poll_flush {
     ($substream:expr, $cx:ident) => {{
         match $substream {
@@ -251,7 +255,12 @@ impl Substream {
             substream,
             codec,
             substream_id,
-            read_buffer: BytesMut::zeroed(1024),
+            // An identity frame is read straight into `read_buffer[..payload_size]`, so the
+            // buffer has to hold a whole frame from the start.
+            read_buffer: BytesMut::zeroed(match codec {
+                ProtocolCodec::Identity(payload_size) => payload_size,
+                _ => 1024,
+            }),
             offset: 0usize,
             pending_frames: VecDeque::new(),
             current_frame_size: None,
@@ -625,17 +634,22 @@ impl Stream for Substream {
 
                                         match read_payload_size(&this.size_vec[..this.offset]) {
                                             Err(ReadError::NotEnoughBytes) => continue,
-                                            Err(_) =>
+                                            Err(_) => {
+                                                // Forget the malformed prefix: a caller polling
+                                                // again must not index past `size_vec`.
+                                                this.offset = 0;
                                                 return Poll::Ready(Some(Err(
                                                     SubstreamError::ReadFailure(Some(
                                                         this.substream_id,
                                                     )),
-                                                ))),
+                                                )));
+                                            }
                                             Ok((size, num_bytes)) => {
                                                 debug_assert_eq!(num_bytes, this.offset);
 
                                                 if let Some(max_size) = max_size {
                                                     if size > max_size {
+                                                        this.offset = 0;
                                                         return Poll::Ready(Some(Err(
                                                             SubstreamError::ReadFailure(Some(
                                                                 this.substream_id,
@@ -747,8 +761,10 @@ impl Sink<Bytes> for Substream {
             match poll_write!(&mut self.substream, cx, &pending_frame) {
                 Poll::Ready(Err(error)) => return Poll::Ready(Err(error.into())),
                 Poll::Pending => {
+                    // Frames remain unsent: the flush is not complete. (The inner `poll_write`
+                    // registered the waker.)
                     self.pending_out_frame = Some(pending_frame);
-                    break;
+                    return Poll::Pending;
                 }
                 Poll::Ready(Ok(nwritten)) => {
                     pending_frame.advance(nwritten);
